@@ -314,7 +314,17 @@ fn run_nd<T: Fl>(c: &NCase, lx: &mut Local) {
         }
         // whole-array mean / weighted_sum with an independent layout for the weights array
         let wfull: Vec<T> = (0..n).map(|i| T::of(WEIGHTS[(i + c.fill) % 4])).collect();
-        let lw = Layout { perm: c.ldata.perm.iter().rev().cloned().collect(), steps: c.ldata.steps.iter().map(|s| -s).collect(), pad: 1 };
+        // weights array in a different layout; when the data layout is contiguous (pad 0) the weights are
+        // contiguous too but in another memory order (reversed permutation, one axis flipped), so that a
+        // routine pairing operands by memory order instead of logical index is exposed
+        let lw = if c.ldata.pad == 0 {
+            let mut steps = c.ldata.steps.clone();
+            let k = c.fill % steps.len();
+            steps[k] *= -1;
+            Layout { perm: c.ldata.perm.iter().rev().cloned().collect(), steps, pad: 0 }
+        } else {
+            Layout { perm: c.ldata.perm.iter().rev().cloned().collect(), steps: c.ldata.steps.iter().map(|s| -s).collect(), pad: 1 }
+        };
         let hw2 = Host::new(&c.shape, &wfull, &lw, T::of(555.0));
         let dr = rats(&data);
         let (s, a) = fl::weighted_sum(&dr, &rats(&wfull));
@@ -335,9 +345,92 @@ fn run_nd<T: Fl>(c: &NCase, lx: &mut Local) {
             }
             other => lx.fail("C06/mean-failed", || format!("n-D mean: {:?} on {:?}", other.map(|r| r.map(|x| x.to_f64_())), c)),
         }
+        // integer axis forms: exact sums and the type's own division
+        let di: Vec<i64> = (0..n).map(|i| ((i * 7 + c.fill * 3) % 11) as i64 - 4).collect();
+        let wi: Vec<i64> = (0..ll).map(|k| ((k + c.fill) % 4) as i64 + if k == 0 { 1 } else { 0 }).collect();
+        let hdi = Host::new(&c.shape, &di, &c.ldata, -99i64);
+        let hwi = Host1::new(&wi, -c.wstep, 1, 55i64);
+        let (vdi, vwi) = (hdi.view(), hwi.view());
+        match (guarded(|| vdi.weighted_sum_axis(Axis(c.axis), &vwi)), guarded(|| vdi.weighted_mean_axis(Axis(c.axis), &vwi))) {
+            (Ok(Ok(rs)), Ok(Ok(rm))) => {
+                let (fs, fm): (Vec<i64>, Vec<i64>) = (rs.iter().cloned().collect(), rm.iter().cloned().collect());
+                let wt: i64 = wi.iter().sum();
+                for (j, lane) in lanes.iter().enumerate() {
+                    if j >= fs.len() || j >= fm.len() {
+                        break;
+                    }
+                    let es: i64 = lane.iter().zip(&wi).map(|(&i, &w)| di[i] * w).sum();
+                    lx.check(fs[j] == es, "C06/int-weighted-sum-axis", || format!("i64 weighted_sum_axis lane {} = {}, exact {}; data {:?} weights {:?}; {:?}", j, fs[j], es, di, wi, c));
+                    lx.check(fm[j] == es / wt, "C06/int-weighted-mean-axis", || format!("i64 weighted_mean_axis lane {} = {}, expected {} / {} = {}; {:?}", j, fm[j], es, wt, es / wt, c));
+                }
+            }
+            (a, b) => lx.fail("C06/axis-failed", || format!("i64 axis forms failed: {:?} / {:?} on {:?}", a.map(|r| r.map(|_| ())), b.map(|r| r.map(|_| ())), c)),
+        }
         hash_of(&obs)
     });
     let _ = MultiInputError::EmptyInput;
+}
+
+#[derive(Debug, Clone)]
+struct WCase {
+    digits: Vec<u8>,
+    ty: u8,
+}
+
+fn run_wide<T: Fl>(c: &WCase, lx: &mut Local) {
+    let alpha: [f64; 7] = if T::NAME == "f32" { [1e-30, 1e-20, 3e-5, 1.0, 7e4, 1e20, 1e30] } else { [1e-300, 1e-160, 3e-5, 1.0, 7e4, 1e160, 1e300] };
+    let n = c.digits.len();
+    let xs: Vec<T> = c.digits.iter().map(|&d| T::of(alpha[d as usize])).collect();
+    let xr = rats(&xs);
+    let u = T::U;
+    for st in [1isize, -1] {
+        lx.single(|lx| {
+            let h = Host1::new(&xs, st, 1, T::of(777.0));
+            let v = h.view();
+            let mut obs = Vec::new();
+            // mean
+            let want = fl::mean(&xr);
+            let bound = c4(n) * u * fl::abs_sum(&xr).to_f64_up_abs() / n as f64;
+            match guarded(|| SummaryStatisticsExt::mean(&v)) {
+                Ok(Ok(g)) => {
+                    let e = err_of(g.to_f64_(), &want);
+                    lx.check(e <= bound, "C06/mean-wide", || format!("[{}] mean of {:?} = {:?}, exact {:e}, error {:e} > bound {:e}", T::NAME, xs, g, want.to_f64(), e, bound));
+                    obs.push(g.bits_());
+                }
+                other => lx.fail("C06/mean-failed", || format!("[{}] mean of {:?}: {:?}", T::NAME, xs, other.map(|r| r.map(|x| x.to_f64_())))),
+            }
+            // harmonic mean
+            let recips: Vec<Rat> = xr.iter().map(|x| x.recip()).collect();
+            let m = fl::mean(&recips);
+            let hwant = m.recip();
+            let rel_m = (n as f64 + 4.0) * u;
+            let hb = 4.0 * (rel_m + 2.0 * u) * hwant.to_f64_up_abs();
+            match guarded(|| v.harmonic_mean()) {
+                Ok(Ok(g)) => {
+                    let e = err_of(g.to_f64_(), &hwant);
+                    lx.check(e <= hb, "C06/harmonic-mean-wide", || format!("[{}] harmonic_mean of {:?} = {:?}, exact {:e}, error {:e} > bound {:e}", T::NAME, xs, g, hwant.to_f64(), e, hb));
+                    obs.push(g.bits_());
+                }
+                other => lx.fail("C06/harmonic-mean-failed", || format!("[{}] harmonic_mean of {:?}: {:?}", T::NAME, xs, other.map(|r| r.map(|x| x.to_f64_())))),
+            }
+            // geometric mean: exp of the exactly averaged f64 logarithms (the product itself is far outside the float range)
+            let lns: Vec<f64> = xs.iter().map(|x| x.to_f64_().ln()).collect();
+            let mean_ln = (&sum(lns.iter().map(|&l| Rat::from_f64(l)).collect::<Vec<_>>().iter()) / &Rat::from_u(n)).to_f64();
+            let gwant = mean_ln.exp();
+            let mean_abs_ln = lns.iter().map(|l| l.abs()).sum::<f64>() / n as f64;
+            let tol = 4.0 * (n as f64 + 8.0) * u * (1.0 + mean_abs_ln) * gwant;
+            match guarded(|| v.geometric_mean()) {
+                Ok(Ok(g)) => {
+                    let e = (g.to_f64_() - gwant).abs();
+                    lx.ratio("geometric_mean_wide", e / tol);
+                    lx.check(e <= tol, "C06/geometric-mean-wide", || format!("[{}] geometric_mean of {:?} = {:?}, reference {:e}, error {:e} > tolerance {:e}", T::NAME, xs, g, gwant, e, tol));
+                    obs.push(g.bits_());
+                }
+                other => lx.fail("C06/geometric-mean-failed", || format!("[{}] geometric_mean of {:?}: {:?}", T::NAME, xs, other.map(|r| r.map(|x| x.to_f64_())))),
+            }
+            hash_of(&obs)
+        });
+    }
 }
 
 fn main() {
@@ -375,6 +468,21 @@ fn main() {
                 run_float::<f64>(c, lx)
             } else {
                 run_float::<f32>(c, lx)
+            }
+        },
+    );
+    let wmax = rep.cfg.pick(5, 6);
+    let wcases = (1..=wmax).flat_map(|n| sequences(n, 7)).flat_map(|d| (0..2u8).map(move |ty| WCase { digits: d.clone(), ty }));
+    rep.run_sub(
+        "wide-magnitudes",
+        &format!("every array of length 1..={} over {{1e-300, 1e-160, 3e-5, 1, 7e4, 1e160, 1e300}} (f32: 1e-30 .. 1e30): mean, harmonic_mean, geometric_mean on contiguous and reversed views (sums and means stay representable; products do not)", wmax),
+        wcases,
+        |c, lx| {
+            lx.nontrivial(c.digits.len() >= 2);
+            if c.ty == 0 {
+                run_wide::<f64>(c, lx)
+            } else {
+                run_wide::<f32>(c, lx)
             }
         },
     );
